@@ -56,6 +56,7 @@ func RunPlan(p *Plan, dir string, keepTrace bool) (res *Result) {
 				for i := 0; i < n; i++ {
 					res.fault(k)
 				}
+				res.FaultFree = false
 			}
 			w.firedMu.Unlock()
 			if n := w.Stats.Count("provider_error_fallback"); n > 0 {
